@@ -32,6 +32,14 @@ type EPCase struct {
 
 const maxMakeCount = 4096 // cap for entry points that make() the declared element count
 
+// holders for the GetUnknownFields entry point
+type c03NoUF struct{ Other []byte }
+
+type c03WithUF struct {
+	N              int
+	_unknownFields []byte
+}
+
 type entryPoint struct {
 	name  string
 	typed bool                                                 // depends on the requested type byte
@@ -183,6 +191,30 @@ var entryPoints = []entryPoint{
 	}, func(b []byte, t int8) (int, bool, error) {
 		_, err := uf.ConvertUnknownFields(b)
 		return 0, false, err
+	}},
+	{"GetUnknownFields (holder with the bytes; every other call a holder type without the field)", false, func(b []byte, t int8) bool {
+		if ref.MaxDeclaredCount(b) <= maxMakeCount {
+			return true
+		}
+		_, ok := parseFieldSeq(b)
+		return ok
+	}, func(b []byte, t int8) (int, bool, error) {
+		if _, err := uf.GetUnknownFields(&c03NoUF{Other: b}); err == nil {
+			return -2, true, nil // a holder without the field cannot be answered
+		}
+		_, err := uf.GetUnknownFields(&c03WithUF{_unknownFields: b})
+		if _, err2 := uf.GetUnknownFields(c03NoUF{Other: b}); err2 == nil {
+			return -2, true, nil
+		}
+		return 0, false, err
+	}},
+	{"ttheader.IsStreaming", false, nil, func(b []byte, t int8) (int, bool, error) {
+		_ = ttheader.IsStreaming(b)
+		return 0, false, nil
+	}},
+	{"ttheader.IsTTHeader (inputs of at least 8 bytes)", false, func(b []byte, t int8) bool { return len(b) >= 8 }, func(b []byte, t int8) (int, bool, error) {
+		_ = ttheader.IsTTHeader(b)
+		return 0, false, nil
 	}},
 	{"ttheader.DecodeFromBytes", false, nil, func(b []byte, t int8) (int, bool, error) {
 		p, err := ttheader.DecodeFromBytes(context.Background(), b)
@@ -432,7 +464,7 @@ func genEPCase(t *rapid.T) EPCase {
 var c03Flip int
 
 func TestC03_Random(t *testing.T) {
-	rec := evid.New("C03", "c03_random", "rapid: valid encodings (value trees, nesting chains, field sequences, Base-like structs, message envelopes, TTHeader-like frames) hit by one malformation operator (every cut point, structural byte -> boundary byte, size -> hostile constant, splice, bit flip, append) or uniform bytes, with any requested type byte -128..127; each case runs through 30 entry points x 3 placements (guard page after, guard page before, heap cap==len) behind recover with faults turned into panics; non-trivial = non-empty input on which the reference parsed >= 1 structural field or which is a strict mutation")
+	rec := evid.New("C03", "c03_random", "rapid: valid encodings (value trees, nesting chains, field sequences, Base-like structs, message envelopes, TTHeader-like frames) hit by one malformation operator (every cut point, structural byte -> boundary byte, size -> hostile constant, splice, bit flip, append) or uniform bytes, with any requested type byte -128..127; each case runs through 33 entry points x 3 placements (guard page after, guard page before, heap cap==len) behind recover with faults turned into panics; non-trivial = non-empty input on which the reference parsed >= 1 structural field or which is a strict mutation")
 	defer rec.Flush()
 	rec.Assume("the span-cache switch is flipped between (sequential) cases: every third case runs with it enabled")
 	defer thrift.SetSpanCache(false)
